@@ -18,7 +18,10 @@ from oracles.attrs import attrs_as_list, ref_attr_name, ref_merge
               "paths are covered by h_name_public with solver-chosen concrete names")
 def k_attr_name(raw: str) -> bool:
     r = ref_attr_name(raw)
-    return TagAttrDict._normalize_attr_name(raw) == r and JSXTagAttrDict._normalize_attr_name(raw) == r
+    # private helpers: if a refactoring removes them the public paths (h_name_public) still cover normalisation
+    f = getattr(TagAttrDict, "_normalize_attr_name", None)
+    g = getattr(JSXTagAttrDict, "_normalize_attr_name", None)
+    return (f is None or f(raw) == r) and (g is None or g(raw) == r)
 
 
 _ALPHA = "x_-aB"
